@@ -58,7 +58,8 @@ AVOID_MAP = {
         "pack-rejects-out-of-range-initializer", "consteval-no-wrap-to-type", "consteval-division-floors",
         "char-constant-has-type-char", "sizeof-result-is-signed-long", "decimal-literal-gets-unsigned-int",
         "shift-result-type-from-both-operands", "no-integer-promotion-unary-ternary-compare",
-        "equality-parsed-at-relational-precedence", "ternary-condition-converted-to-int")),
+        "equality-parsed-at-relational-precedence", "ternary-condition-converted-to-int",
+        "conditional-operator-arms-not-promoted")),
     "enumerator-operand-gives-enum-typed-arithmetic": ((), ("enumerator-operand-gives-enum-typed-arithmetic",)),
     "address-constant-with-offset-not-implemented": (("address-constant-with-offset",), ()),
     "unnamed-bitfield-asserts-in-layout-struct": (("unnamed-bitfield",), ()),
